@@ -1,6 +1,6 @@
-(* Lemmas about Model/Protocol.v (C14): message framing and one protocol session. *)
+(* Lemmas about Model/ProtocolSession.v (C14): message framing and one protocol session. *)
 From Coq Require Import List NArith Arith Bool Lia ZifyN ZifyNat ZifyBool.
-From DS Require Import Gen.Constants Base.Bytes Base.Hash Base.LE64 Model.HTTPServer Model.Protocol.
+From DS Require Import Gen.Constants Base.Bytes Base.Hash Base.LE64 Model.HTTPServer Model.ProtocolSession.
 Import ListNotations.
 Local Open Scope N_scope.
 
@@ -106,7 +106,7 @@ Section ProtocolProofs.
         end
     end.
   Proof using Type.
-    clear z_roundtrip z_nonempty. intros Hi. cbn [Protocol.serve_loop]. rewrite message_roundtrip by apply wf_request.
+    clear z_roundtrip z_nonempty. intros Hi. cbn [ProtocolSession.serve_loop]. rewrite message_roundtrip by apply wf_request.
     cbn [request_msg m_type m_body]. rewrite N.eqb_refl.
     replace (N.of_nat (length (le64 CaProtocolRequestHighPriority ++ id_bytes i)) <? 40) with false
       by (rewrite app_length, le64_length; unfold id_bytes; rewrite be_bytes_length; reflexivity).
@@ -120,7 +120,7 @@ Section ProtocolProofs.
   Lemma reply_missing i j rest :
     request_chunk_reply i (write_message (missing_msg j) ++ rest) = (PMissing, rest).
   Proof using Type.
-    clear z_roundtrip z_nonempty. unfold Protocol.request_chunk_reply. rewrite message_roundtrip by apply wf_missing. reflexivity.
+    clear z_roundtrip z_nonempty. unfold ProtocolSession.request_chunk_reply. rewrite message_roundtrip by apply wf_missing. reflexivity.
   Qed.
 
   Lemma reply_chunk i j d rest :
@@ -128,7 +128,7 @@ Section ProtocolProofs.
     exists c, request_chunk_reply i (write_message (chunk_msg j CaProtocolChunkCompressed (zcomp d)) ++ rest) = (PData c, rest)
               /\ chunk_data zdecomp c = Some d.
   Proof.
-    intros Hd Hh Hl. unfold Protocol.request_chunk_reply.
+    intros Hd Hh Hl. unfold ProtocolSession.request_chunk_reply.
     rewrite message_roundtrip by (apply wf_chunk_msg; [vm_compute; reflexivity|exact Hl]).
     cbn [chunk_msg m_type m_body].
     replace (CaProtocolChunk =? CaProtocolMissing) with false by reflexivity. rewrite N.eqb_refl.
@@ -148,7 +148,7 @@ Section ProtocolProofs.
   Proof. reflexivity. Qed.
 
   Lemma replies_eof ids : client_replies ids [] = repeat PErr (length ids).
-  Proof. induction ids as [|i r IH]; [reflexivity|]. cbn [Protocol.client_replies length repeat]. rewrite reply_eof, IH. reflexivity. Qed.
+  Proof. induction ids as [|i r IH]; [reflexivity|]. cbn [ProtocolSession.client_replies length repeat]. rewrite reply_eof, IH. reflexivity. Qed.
 
   (* ---------- a whole session ---------- *)
 
@@ -164,24 +164,24 @@ Section ProtocolProofs.
   Lemma session_all_present_gen store data_of ids : forall fuel rest_out,
     Forall (present store data_of) ids -> (length ids <= fuel)%nat ->
     Forall2 (is_data data_of) ids
-      (client_replies ids (Protocol.serve_loop H zcomp zdecomp fuel store (client_requests ids) ++ rest_out)).
+      (client_replies ids (ProtocolSession.serve_loop H zcomp zdecomp fuel store (client_requests ids) ++ rest_out)).
   Proof.
     induction ids as [|i r IH]; intros fuel rest_out F Hf.
     - constructor.
     - inversion F as [|? ? Hp Fr]; subst. destruct Hp as [Hi [Hd [Hh [c [Es [Ed Hl]]]]]].
       destruct fuel as [|fuel]; [cbn [length] in Hf; lia|].
       cbn [client_requests]. rewrite serve_request by exact Hi. rewrite Es, Ed.
-      cbn [Protocol.client_replies]. rewrite <- app_assoc.
+      cbn [ProtocolSession.client_replies]. rewrite <- app_assoc.
       destruct (reply_chunk i (chunk_id H zdecomp c) (data_of i)
-                  (Protocol.serve_loop H zcomp zdecomp fuel store (client_requests r) ++ rest_out) Hd Hh Hl) as [c' [Er Hc']].
+                  (ProtocolSession.serve_loop H zcomp zdecomp fuel store (client_requests r) ++ rest_out) Hd Hh Hl) as [c' [Er Hc']].
       rewrite Er. constructor; [exists c'; split; [reflexivity|exact Hc']|]. apply IH; [exact Fr|cbn [length] in Hf; lia].
   Qed.
 
   Lemma session_all_present store data_of ids :
     Forall (present store data_of) ids -> Forall2 (is_data data_of) ids (session store ids).
   Proof.
-    intros F. unfold Protocol.session.
-    rewrite <- (app_nil_r (Protocol.serve_loop _ _ _ _ _ _)). apply session_all_present_gen; [exact F|lia].
+    intros F. unfold ProtocolSession.session.
+    rewrite <- (app_nil_r (ProtocolSession.serve_loop _ _ _ _ _ _)). apply session_all_present_gen; [exact F|lia].
   Qed.
 
   (* The complete behaviour of one session as the code stands: replies are correct up to and
@@ -193,21 +193,21 @@ Section ProtocolProofs.
       session store (pre ++ m :: post) = rs ++ PMissing :: repeat PErr (length post) /\
       Forall2 (is_data data_of) pre rs.
   Proof.
-    intros F Hm Em. unfold Protocol.session.
+    intros F Hm Em. unfold ProtocolSession.session.
     assert (forall fuel, (length pre < fuel)%nat ->
               exists rs, client_replies (pre ++ m :: post)
-                           (Protocol.serve_loop H zcomp zdecomp fuel store (client_requests (pre ++ m :: post)))
+                           (ProtocolSession.serve_loop H zcomp zdecomp fuel store (client_requests (pre ++ m :: post)))
                          = rs ++ PMissing :: repeat PErr (length post) /\ Forall2 (is_data data_of) pre rs) as Hgen.
     { induction pre as [|i r IH]; intros fuel Hf.
       - destruct fuel as [|fuel]; [lia|]. cbn [app client_requests]. rewrite serve_request by exact Hm. rewrite Em.
-        exists []. split; [|constructor]. cbn [app Protocol.client_replies].
+        exists []. split; [|constructor]. cbn [app ProtocolSession.client_replies].
         rewrite <- (app_nil_r (write_message (missing_msg m))), reply_missing, replies_eof. reflexivity.
       - inversion F as [|? ? [Hi [Hd [Hh [c [Es [Ed Hl]]]]]] Fr]; subst.
         destruct fuel as [|fuel]; [lia|]. cbn [app client_requests]. rewrite serve_request by exact Hi. rewrite Es, Ed.
         destruct (IH Fr fuel ltac:(cbn in Hf; lia)) as [rs [Ers Hrs]].
-        cbn [Protocol.client_replies].
+        cbn [ProtocolSession.client_replies].
         destruct (reply_chunk i (chunk_id H zdecomp c) (data_of i)
-                    (Protocol.serve_loop H zcomp zdecomp fuel store (client_requests (r ++ m :: post))) Hd Hh Hl) as [c' [Er Hc']].
+                    (ProtocolSession.serve_loop H zcomp zdecomp fuel store (client_requests (r ++ m :: post))) Hd Hh Hl) as [c' [Er Hc']].
         rewrite Er, Ers. exists (PData c' :: rs). split; [reflexivity|]. constructor; [exists c'; split; [reflexivity|exact Hc']|exact Hrs]. }
     apply Hgen. rewrite app_length. cbn. lia.
   Qed.
@@ -216,7 +216,7 @@ Section ProtocolProofs.
   Lemma session_store_failure store i :
     wf_id i -> store i = GFail -> session store [i] = [PErr].
   Proof using Type.
-    clear z_roundtrip z_nonempty. intros Hi Ef. unfold Protocol.session. cbn [client_requests length].
+    clear z_roundtrip z_nonempty. intros Hi Ef. unfold ProtocolSession.session. cbn [client_requests length].
     rewrite serve_request by exact Hi. rewrite Ef. reflexivity.
   Qed.
 End ProtocolProofs.
